@@ -90,13 +90,14 @@ def run(R, env):
     if U is not None:
         Ur = resolve_terms(prog, U, env.depth)
         alts = alts_of(Ur)
-        good = len(alts) == 2 and any(zero(a) for a in alts) and any(mr(a, tnt, pend_total, lst) for a in alts)
+        # (the zero alternative may be spelled as the batch total itself, returned where it is zero: the worlds below pin that)
+        good = len(alts) == 2 and any(zero(a) or pend_total(a) for a in alts) and any(mr(a, tnt, pend_total, lst) for a in alts)
         R.ob("C04.R2", "SubmitBatch:unbond-formula", good, "unbond amount alternatives are not {0, total_native.multiply_ratio(batch_total, total_lst)}: %s" % [fmt(a)[:160] for a in alts], fn=sk)
         calls = [s_ for s_ in subterms(U) if s_[0] == "call" and shared._body_of_call(prog, s_) is not None]
         if calls:
             cb = shared._body_of_call(prog, calls[0])
             isz = lambda t: t[0] == "call" and t[1] == "cosmwasm_std::Uint128::is_zero" and pend_total(t[2][0])
-            for val, name, pred in ((True, "batch=0", zero), (False, "batch>0", lambda x: mr(x, tnt, pend_total, lst))):
+            for val, name, pred in ((True, "batch=0", lambda x: zero(x) or pend_total(x)), (False, "batch>0", lambda x: mr(x, tnt, pend_total, lst))):
                 Uw = resolve_terms(prog, U, env.depth, None, ((isz, val), (pend_total, ("int", 0 if val else 1))))
                 R.worlds += 1
                 R.ob("C04.R2", "unbond:" + name, all(pred(a_) for a_ in alts_of(Uw)), "in the world %s the unbond computation returns %s" % (name, fmt(Uw)[:200]), fn=cb.key)
